@@ -77,6 +77,8 @@ def correspond(ctx):
                     if key is None:
                         continue
                     where = rnd.choice(["protected", "split"])
+                    if aad and not zip_ and rnd.random() < (0.6 if wrap in ("dir", "A128KW") else 0.3):
+                        where = "none"       # no protected header: the AAD input is "." || aad alone
                     tmpl = G.jwe_template(wrap, enc, zip_, aad, where=where)
                     pt = rnd.choice(pts)
                     req.append("jweenc\t%s\t-\t%s\t%s" % (J(tmpl), J(key), pt.hex() or "-"))
@@ -118,7 +120,7 @@ def correspond(ctx):
     for tok, (wrap, enc, zip_, aad, key, pt) in toks:
         if zip_ or wrap != "dir" or len(pt) > 5000:
             continue
-        tmpl = {"protected": json.loads(G.unb64(tok["protected"]))}     # re-encoded by the model: must give the same text
+        tmpl = {"protected": json.loads(G.unb64(tok["protected"]))} if "protected" in tok else {}   # re-encoded by the model: must give the same text
         if "unprotected" in tok:
             tmpl["unprotected"] = tok["unprotected"]
         if aad:
@@ -134,7 +136,7 @@ def correspond(ctx):
             except Exception:
                 m = {}
             if m.get("ciphertext") != tok["ciphertext"] or m.get("tag") != tok["tag"]:
-                rep.violation("ciphertext-not-bit-identical:" + json.loads(G.unb64(tok["protected"])).get("enc", "?"),
+                rep.violation("ciphertext-not-bit-identical:" + (json.loads(G.unb64(tok["protected"])) if "protected" in tok else tok.get("unprotected", {})).get("enc", "?"),
                               "given the same CEK and IV the independent implementation computes a different ciphertext/tag",
                               {"case": c, "jose": {"ciphertext": tok["ciphertext"][:80], "tag": tok["tag"]}, "model": o[:300]})
         dist["bit-identity re-encryptions on the model"] = len(menc_cases)
@@ -152,6 +154,10 @@ def correspond(ctx):
                     tmpl["aad"] = aad
                 rndb = bytes(rnd.getrandbits(8) for _ in range(16))
                 m2j.append(("menc\t%s\t%s\t%s\t%s" % (J(tmpl), J(key), rndb.hex(), pt.hex() or "-"), key, pt))
+                if aad and not zip_:
+                    # no protected header at all
+                    t2 = {"unprotected": {"alg": "dir", "enc": enc}, "encrypted_key": "", "aad": aad}
+                    m2j.append(("menc\t%s\t%s\t%s\t%s" % (J(t2), J(key), rndb.hex(), pt.hex() or "-"), key, pt))
     if ctx.get("driver"):
         mo = vlib.run_cases(ctx["driver"], [c for c, _, _ in m2j])
         dcases = []
@@ -164,7 +170,7 @@ def correspond(ctx):
             dcases.append(dc)
         for dc, o in zip(dcases, G.harness(bdir, dcases)):
             if o != expected[dc]:
-                rep.violation("model-token-rejected:" + json.loads(dc.split("\t")[1])["protected"][:12],
+                rep.violation("model-token-rejected:" + json.loads(dc.split("\t")[1]).get("protected", "no-protected-header")[:12],
                               "a JWE produced by the independent implementation does not decrypt in jose: " + o[:60], {"case": dc, "implementation": o})
         dist["model-produced tokens decrypted by jose"] = len(dcases)
     # ---- 4. RFC 7520 section 5 vectors
